@@ -607,6 +607,14 @@ def gen_C11(rng, tier):
             hidden = (hf, hpw, hpb, ha, fi0)
             p.tag('hidden-layer', 'hidden-width%d' % fh, 'hidden-act:%s' % hact)
         dead = (how == 'custom' and lossk == 'mse' and actk == 'relu' and not hidden and rng.random() < 0.6)
+        # pre-activations of tiny magnitude (1e-13 … 1e-15, not zero): a kink is hit only AT zero, so Relu / LeakyRelu treat them as
+        # strictly positive or negative, and the clip of the losses lets a prediction of 1e-13 above its bound through
+        tiny = (how == 'custom' and actk in ('relu', 'leaky') and not hidden and not dead and frozen == (False, False) and rng.random() < 0.35)
+        if tiny:
+            wt = p.tensor([fo], [rng.choice([1e-13, -1e-13, 3e-14, -2e-15]) for _ in range(fo)], tracked=True)
+            bt = p.tensor([fo], [0.0] * fo, tracked=True)
+            p.add('setptr %s %s' % (pw, wt)); p.add('setptr %s %s' % (pb, bt))
+            p.tag('tiny-preactivations')
         if dead:
             # every pre-activation is negative: outputs and all gradients are exactly zero
             w0 = p.tensor([fo], [-1.0 - 0.5 * k for k in range(fo)], tracked=True)
